@@ -1,6 +1,7 @@
 /* Correspondence driver for src/bintree.c and src/rbtree.c (C01, C02, C15).
  * Header lines: "keys k0 k1 ..." (key of element id i; further "keys" lines
- * continue the table), "kind bin|rb".
+ * continue the table), "kind bin|rb", "cmpmode 0|1|2" (magnitude of the
+ * comparison results, see cmp()).
  * The tree is decoded through the public struct fields only: shape,
  * element identities, colours; every child's parent pointer, the root's
  * NULL parent, cycles / foreign nodes and the size field are checked and
@@ -37,10 +38,19 @@ static struct elem * get(int id)
 }
 static int idof(const void * e) { return e ? ((const struct elem *)e)->id : -1; }
 
+/* The contract of cstl_compare_func_t fixes only the sign of the result.
+ * cmpmode 0: -1/0/1; 1: difference of the keys; 2: sign times a magnitude
+ * that changes from call to call. */
+static int cmpmode;
+static unsigned cmp_calls;
 static int cmp(const void * a, const void * b, void * p)
 {
     const struct elem * x = a, * y = b; (void)p;
-    return (x->key > y->key) - (x->key < y->key);
+    int s = (x->key > y->key) - (x->key < y->key);
+    cmp_calls++;
+    if (cmpmode == 1) return x->key - y->key;
+    if (cmpmode == 2) return s * (int)(1 + (cmp_calls * 7u) % 13u);
+    return s;
 }
 
 #define MAXV (4 * MAXE)
@@ -124,7 +134,7 @@ static void run_case(const struct h_case * c)
 {
     int i, k, started = 0;
 
-    nkeys = 0; rb = 0;
+    nkeys = 0; rb = 0; cmpmode = 0; cmp_calls = 0;
     memset(pool, 0, sizeof(pool));
     memset(seen, 0, sizeof(seen));
     for (i = 0; i < c->nlines; i++) {
@@ -136,6 +146,7 @@ static void run_case(const struct h_case * c)
             continue;
         }
         if (h_weq(l, 0, "kind")) { rb = h_weq(l, 1, "rb"); continue; }
+        if (h_weq(l, 0, "cmpmode")) { cmpmode = a; continue; }
         if (!started) {
             if (rb) cstl_rbtree_init(&rt, cmp, NULL, offsetof(struct elem, rn));
             else cstl_bintree_init(&bt, cmp, NULL, offsetof(struct elem, bn));
